@@ -1,7 +1,7 @@
 #!/bin/sh
 # usage: tools/seed_try.sh <name e.g. C19a> [check args...]   -- verifies a seeded change and runs the check against it
 # 1. in the agent's worktree: pinned tests pass with the change, demo fails with / passes without
-# 2. apply to /repo, run ./check <ID>, undo
+# 2. run ./check <ID> against that worktree (SYMX_REPO), undo
 set -u
 N=$1; shift
 ID=$(echo $N | cut -c1-3)
@@ -16,11 +16,11 @@ echo "== demo without change"; (cd $WT && cp /tmp/wt/demo_$N.py demo.py && timeo
 git apply $OUT/patch.diff || { echo "patch does not apply to current HEAD"; exit 2; }
 echo "== tests with change"; timeout 900 /venv/bin/python -m pytest -q -p no:cacheprovider --timeout=900 unittests/cargotests.py unittests/optiontests.py unittests/taptests.py unittests/versiontests.py 2>&1 | tail -1
 echo "== demo with change"; (timeout 300 /venv/bin/python demo.py >/tmp/wt/$N.demo1.log 2>&1; echo "exit $?"); tail -2 /tmp/wt/$N.demo1.log
-rm -f demo.py; git checkout -q -- .
+rm -f demo.py
 cd /verif
-git -C /repo apply $OUT/patch.diff || { echo "cannot apply to /repo"; exit 2; }
-echo "== check on seeded /repo"
-SYMX_EVIDENCE_DIR=/tmp/wt/evidence-seeded ./check $ID "$@" > /tmp/wt/$N.check.log 2>&1; echo "check exit $?"
-git -C /repo checkout -- .
+# the checks run against the agent's scratch worktree (patch applied, at /repo's HEAD) through SYMX_REPO: /repo itself is never touched,
+# so a background `vp check` / thorough run on /repo is not disturbed
+echo "== check on the seeded tree ($WT)"
+SYMX_REPO=$WT SYMX_EVIDENCE_DIR=/tmp/wt/evidence-seeded ./check $ID "$@" > /tmp/wt/$N.check.log 2>&1; echo "check exit $?"
+git -C $WT checkout -q -- .
 grep -E "^VIOLATION|^INCONCLUSIVE|^KNOWN|holds within" /tmp/wt/$N.check.log | cut -c1-400 | head -8
-git -C /repo status --short | head -3
